@@ -45,6 +45,22 @@ const c16Dirty = `{"swagger":"2.0","info":{"title":"t","version":"1"},"schemes":
  "/q":{"options":{"operationId":"optQ","responses":{"200":{"description":"ok"}}}}},
 "definitions":{"pet":{"type":"object","required":["b","a","b"],"properties":{"a":{"type":"string","enum":["n2","n1","n2"]},"b":{"type":"integer"}}}}}`
 
+// c16Params: three path-level parameters (decoding three elements leaves spare capacity in the slice) next to operations
+// that have parameters of their own, one of them overriding a path-level one.
+const c16Params = `{"swagger":"2.0","info":{"title":"t","version":"1"},
+"parameters":{"sp":{"name":"sp","in":"query","type":"string"}},
+"paths":{"/p/{id}":{"parameters":[{"name":"id","in":"path","required":true,"type":"string"},{"name":"trace","in":"header","type":"string"},{"$ref":"#/parameters/sp"}],
+ "get":{"operationId":"getP","parameters":[{"name":"limit","in":"query","type":"integer"},{"name":"trace","in":"header","type":"integer"}],"responses":{"200":{"description":"ok"}}},
+ "post":{"operationId":"postP","parameters":[{"name":"body","in":"body","schema":{"type":"object"}}],"responses":{"201":{"description":"created"}}},
+ "delete":{"operationId":"delP","responses":{"204":{"description":"gone"}}}},
+ "/a":{"parameters":[{"name":"one","in":"query","type":"string"}],
+ "put":{"operationId":"putA","parameters":[{"name":"x","in":"query","type":"string"},{"name":"y","in":"query","type":"string"},{"name":"one","in":"query","type":"integer"}],"responses":{"200":{"description":"ok"}}},
+ "patch":{"operationId":"patchA","parameters":[{"name":"z","in":"header","type":"string"}],"responses":{"200":{"description":"ok"}}}},
+ "/b":{"parameters":[{"name":"u","in":"query","type":"string"},{"$ref":"#/parameters/sp"}],
+ "head":{"operationId":"headB","parameters":[{"name":"v","in":"query","type":"string"},{"name":"w","in":"header","type":"string"}],"responses":{"200":{"description":"ok"}}},
+ "options":{"operationId":"optB","parameters":[{"name":"u","in":"query","type":"integer"}],"responses":{"200":{"description":"ok"}}}},
+ "/q":{"options":{"operationId":"optQ","responses":{"200":{"description":"ok"}}}}}}`
+
 type qop struct {
 	Name string
 	Run  func(an *analysis.Spec) string
@@ -224,7 +240,7 @@ func c16Ops() []qop {
 			return sortedJoin(l)
 		})
 	}
-	for _, id := range []string{"getP", "optQ", "nope"} {
+	for _, id := range []string{"getP", "optQ", "nope", "postP", "putA", "patchA", "headB", "optB"} {
 		id := id
 		add("OperationForName("+id+")", func(an *analysis.Spec) string {
 			m, p, _, ok := an.OperationForName(id)
@@ -361,13 +377,18 @@ func stateOf(an *analysis.Spec, sw *spec.Swagger) (state, doc uint64) {
 	dumpValue(reflect.ValueOf(an), &sb, map[uintptr]bool{}, 0)
 	f := fnv.New64a()
 	f.Write([]byte(sb.String()))
+	// the document: its serialization AND a reflective dump that includes the capacity tails of its slices (a query that
+	// appends to a slice of the document writes into memory shared by every caller even when the serialization is unchanged)
 	d := fnv.New64a()
 	d.Write(h.Marshal(sw))
+	var db strings.Builder
+	dumpValue(reflect.ValueOf(sw), &db, map[uintptr]bool{}, 0)
+	d.Write([]byte(db.String()))
 	return f.Sum64(), d.Sum64()
 }
 
 func c16Docs(c *Ctx) []string {
-	docs := []string{c16Rich, c16Dirty}
+	docs := []string{c16Rich, c16Dirty, c16Params}
 	sk, _ := gen.Build(gen.Skeleton())
 	docs = append(docs, gen.JSON(sk))
 	addCat := func(cat []option, every int) {
@@ -404,7 +425,7 @@ func c16Sequential(c *Ctx, docJSON string, ops []qop) {
 	if an0 == nil {
 		return
 	}
-	s0, d0 := stateOf(an0, sw0)
+	s0, _ := stateOf(an0, sw0)
 	// reference answers: a fresh analysis of a fresh copy, one instance per operation
 	ref := make([]string, len(ops))
 	for i, op := range ops {
@@ -439,7 +460,7 @@ func c16Sequential(c *Ctx, docJSON string, ops []qop) {
 						ops[p].Run(an)
 					}
 				})
-				before, _ := stateOf(an, sw)
+				before, ddBefore := stateOf(an, sw)
 				syncBefore := mcrt.Cur.SyncOps
 				h.Guard(&o, func() { ans = op.Run(an) })
 				c.Execs++
@@ -451,8 +472,8 @@ func c16Sequential(c *Ctx, docJSON string, ops []qop) {
 				}
 				st, dd := stateOf(an, sw)
 				c.Outcome(st)
-				if dd != d0 {
-					viol("query method modifies the document: "+base(op.Name), "the serialized document changed", path)
+				if dd != ddBefore {
+					viol("query method modifies the document: "+base(op.Name), "the document changed during the last call of the sequence (its serialization, or the hidden capacity tail of one of its slices: memory shared with every other caller)", path)
 				}
 				if ans != ref[oi] {
 					viol("answer differs from a fresh sequential analysis: "+base(op.Name), fmt.Sprintf("got %.300s want %.300s", ans, ref[oi]), path)
